@@ -387,7 +387,7 @@ def run(ctx):
     ctx.rule("R1", "representative-row rule: T[0] used for the whole batch only under a uniformity fact about T (local guard or on every call chain)")
     ctx.rule("R2", "spin flattening: (B,2,N,N) -> (2B,N,N) pairs with repeat_interleave(2) of per-molecule vectors")
     ctx.rule("R3", "fractional occupations are masked on padding orbitals before any reduction or density build")
-    ctx.rule("R4", "Parser index arithmetic: block indices of atoms and pairs equal m*S^2 + i*S + j on an exhaustive small domain")
+    ctx.rule("R4", "Parser index arithmetic: counts, atom lists, block indices and aligned pair records equal their definitions on interpreted concrete padded batches")
 
     # ------------------------------------------------------------------ R1
     check_rep_rows(ctx, "R1")
@@ -399,90 +399,6 @@ def run(ctx):
     check_masked_occupations(ctx, "R3")
 
     # ------------------------------------------------------------------ R4
-    bas = repo.mod("seqm/basics.py")
-    pf = bas.func("Parser.forward")
-    defs = _defs(pf)
-
-    def subst(expr, table):
-        class T(ast.NodeTransformer):
-            def generic_visit(self, n):
-                t = norm(n).replace(" ", "") if isinstance(n, ast.expr) else None
-                if t in table:
-                    return ast.Name(id=table[t], ctx=ast.Load())
-                return super().generic_visit(n)
-        import copy
-        return T().visit(copy.deepcopy(expr))
-
-    def strip_views(e):
-        while True:
-            if isinstance(e, ast.Call) and isinstance(e.func, ast.Attribute) and e.func.attr in ("reshape", "view", "unsqueeze", "expand", "contiguous", "to"):
-                e = e.func.value
-            elif isinstance(e, ast.Subscript) and isinstance(e.slice, ast.Name):
-                e = e.value
-            else:
-                return e
-
-    def check_formula(name, expr, table, want, what):
-        e2 = subst(strip_views(expr), table)
-        bad = None
-        n = 0
-        for S in (1, 2, 3, 4):
-            for m_ in range(3):
-                for i in range(S):
-                    for j in range(S):
-                        env = {"S": S, "molsize": S, "m": m_, "i": i, "j": j, "a": m_ * S + i, "b": m_ * S + j, "nmol": 3}
-                        try:
-                            got = int_eval(e2, env)
-                        except (NotConst, Exception) as ex:  # noqa
-                            return False, f"not interpretable: {ex}"
-                        n += 1
-                        if got != want(S, m_, i, j):
-                            bad = (S, m_, i, j, got, want(S, m_, i, j))
-                            break
-        if bad:
-            return False, f"molsize={bad[0]}, molecule {bad[1]}, atoms ({bad[2]},{bad[3]}): got {bad[4]}, expected {bad[5]}"
-        return True, f"{n} points"
-
-    # maskd = (t1 + t2).reshape(-1)[real_atoms]; t1 = arange(molsize)*(molsize+1); t2 = arange(nmol)*molsize**2
-    table = {"torch.arange(molsize,dtype=torch.int64,device=device)": "i", "torch.arange(nmol,dtype=torch.int64,device=device)": "m",
-             "real_atoms[idxi]": "a", "real_atoms[idxj]": "b"}
-    def inline(e, depth=0):
-        class T(ast.NodeTransformer):
-            def visit_Name(self, n):
-                if n.id in ("t1", "t2") and len(defs.get(n.id, [])) == 1:
-                    return strip_views(inline(defs[n.id][0], depth + 1))
-                return n
-        import copy
-        return T().visit(copy.deepcopy(e))
-    for nm, want, what in (("maskd", lambda S, m_, i, j: m_ * S * S + i * S + i, "diagonal block of atom i in molecule m"),
-                           ("mask", lambda S, m_, i, j: m_ * S * S + i * S + j, "block (i, j) of molecule m"),
-                           ("mask_l", lambda S, m_, i, j: m_ * S * S + j * S + i, "block (j, i) of molecule m")):
-        ds = [v for v in defs.get(nm, []) if not (isinstance(v, ast.Constant) and v.value is None)]
-        if len(ds) != 1:
-            ctx.fail("R4", bas, pf, "Parser.forward", nm, f"{nm} is not defined exactly once ({len(ds)})")
-            continue
-        ok_, why = check_formula(nm, inline(strip_views(ds[0])), table, want, what)
-        ctx.check(ok_, "R4", bas, pf, "Parser.forward", f"{nm} = {short(norm(ds[0]))}", f"{nm} addresses the {what}: {why}",
-                  f"{nm} = {short(norm(ds[0]))} does not address the {what} ({why}): matrix blocks of one molecule land in another row's storage")
-    # atom_molid, pair_molid, idxi/idxj
-    am = [v for v in defs.get("atom_molid", []) if not (isinstance(v, ast.Constant) and v.value is None)]
-    t = norm(am[0]).replace(" ", "") if am else ""
-    ctx.check(len(am) == 1 and t.startswith("torch.arange(nmol,") and ".unsqueeze(1).expand(-1,molsize).reshape(-1)[nonblank.reshape(-1)>0]" in t, "R4", bas, pf, "Parser.forward", "atom_molid",
-              "atom_molid[k] is the batch row of real atom k", f"atom_molid = {short(t)}")
-    pm = [v for v in defs.get("pair_molid", []) if not (isinstance(v, ast.Constant) and v.value is None)]
-    ctx.check(len(pm) == 1 and norm(pm[0]) in ("atom_molid[idxi]", "atom_molid[idxj]"), "R4", bas, pf, "Parser.forward", "pair_molid", "pair_molid = atom_molid[idxi]",
-              f"pair_molid = {[norm(x) for x in pm]}")
-    for nm, src in (("idxi", "pair_first"), ("idxj", "pair_second")):
-        d = [v for v in defs.get(nm, []) if not (isinstance(v, ast.Constant) and v.value is None)]
-        ctx.check(len(d) == 1 and norm(d[0]).replace(" ", "") == f"inv_real_atoms[{src}[pairs]]", "R4", bas, pf, "Parser.forward", nm, f"{nm} = inv_real_atoms[{src}[pairs]] (compacted real-atom index)",
-                  f"{nm} = {[norm(x) for x in d]}")
-    inv = [st for st in ast.walk(pf) if isinstance(st, ast.Assign) and norm(st.targets[0]) == "inv_real_atoms[real_atoms]"]
-    ctx.check(len(inv) == 1 and norm(inv[0].value).replace(" ", "").startswith("torch.arange(n_real_atoms,"), "R4", bas, pf, "Parser.forward", "inv_real_atoms",
-              "inv_real_atoms is the inverse of real_atoms", "inverse map of real_atoms is not arange(n_real_atoms)")
-    # pair enumeration stays within a molecule: pair_first / pair_second are expansions of the per-molecule atom index grid
-    for nm, ax in (("pair_first", "2"), ("pair_second", "1")):
-        d = defs.get(nm, [])
-        t = norm(d[0]).replace(" ", "") if d else ""
-        ctx.check(len(d) == 1 and t == f"atom_index.reshape(nmol,molsize).unsqueeze({ax}).expand(nmol,molsize,molsize).reshape(-1)", "R4", bas, pf, "Parser.forward", nm,
-                  f"{nm} enumerates atoms of the same molecule (grid over molsize x molsize per row)", f"{nm} = {short(t)}: pairs may couple atoms of different molecules")
-    ctx.floor("R4", 9)
+    # decided by interpreting Parser.forward on concrete padded batches (sa.assembly.check_parser): independent of how the index formulas are spelled
+    from ..assembly import check_parser
+    check_parser(ctx, "R4", aspects=("index", "pairs"))
